@@ -480,6 +480,47 @@ fn exec_op(ctx: &Arc<MemCtx>, client: usize, held: &mut Vec<Held>, op: &Op) -> R
                 None => Res::hit(*k, *ver, *w, 1),
             }
         }
+        Op::FetchThenInsert { k, ver, ins_ver, w, yields } => {
+            let hook = ctx.hook();
+            // the origin is held back until the explicit insert has returned (it is the harness's future)
+            let gate = Arc::new(std::sync::atomic::AtomicBool::new(false));
+            let g2 = gate.clone();
+            let (kk, vv, ww, yy) = (*k, *ver, *w, *yields);
+            let mut fut = Box::pin(cache.get_or_fetch(&MKey { k: *k, hook: ctx.hook() }, move || async move {
+                while !g2.load(std::sync::atomic::Ordering::SeqCst) {
+                    shuttle::future::yield_now().await;
+                }
+                origin(kk, vv, ww, yy, false, hook).await
+            }));
+            let waker = futures_util::task::noop_waker();
+            let mut cx = std::task::Context::from_waker(&waker);
+            let first = std::future::Future::poll(fut.as_mut(), &mut cx);
+            let e = cache.insert(MKey { k: *k, hook: ctx.hook() }, MVal { key: *k, ver: *ins_ver, w: *w, hook: ctx.hook() });
+            drop(e);
+            let ins_ret = hist::ev("race_insert_ret", *k, *ins_ver as u64, 0);
+            gate.store(true, std::sync::atomic::Ordering::SeqCst);
+            drop(first);
+            drop(fut);
+            while !Spawner::verif_all_finished() {
+                shuttle::thread::yield_now();
+            }
+            // a fetch whose origin resolved only after the explicit insert had returned belongs to a closed round: its
+            // result is rejected, and a rejected result must not have evicted anything on its way
+            let later = hist::events_since(ins_ret);
+            let origin_after = later.iter().any(|e| e.kind == "origin_done" && e.a == *k && e.b == *ver as u64);
+            if origin_after {
+                hist::probe("stale_fetch_result_after_insert");
+                if let Some(ev) = later.iter().find(|e| e.kind == "leave" && e.a == 0) {
+                    hist::violation(
+                        prop,
+                        "stale-fetch-result-evicted",
+                        format!("the fetch of ({k},v{ver}) resolved after insert({k},v{ins_ver}) had returned (its round was closed, its result is dropped), yet entry ({},v{}) was evicted on its account", ev.b, ev.c),
+                        &[],
+                    );
+                }
+            }
+            Res::hit(*k, *ins_ver, *w, 0)
+        }
         Op::Contains { k } => Res::boolean(cache.contains(&MKey::plain(*k))),
         Op::Touch { k } => {
             let b = cache.touch(&MKey::plain(*k));
@@ -567,6 +608,7 @@ fn run_client(ctx: Arc<MemCtx>, client: usize, ops: Vec<Op>) -> Vec<Held> {
         // an abandoned fetch is, for the oracles, the fetch it amounts to
         let logged = match op {
             Op::AbandonFetch { k, ver, w, yields, .. } => Op::Fetch { k: *k, ver: *ver, w: *w, yields: *yields, fail: false, hold: false },
+            Op::FetchThenInsert { k, ins_ver, w, .. } => Op::Insert { k: *k, ver: *ins_ver, w: *w, loc: 0, hold: false },
             _ => op.clone(),
         };
         LOG.with(|l| l.borrow_mut().oplog.push(OpRec { client, idx, op: logged, inv, ret, res }));
